@@ -1,3 +1,4 @@
+import Secp.Proofs.DriversFront
 import Secp.Proofs.DriversSchnorr
 import Secp.Proofs.Schnorr
 import Secp.Props.C03
@@ -111,5 +112,12 @@ theorem schnorrSignRFC6979_regenerated (B : Bytes → Bytes) (d : Nat) (h : Byte
       (match Secp.Model.schnorrSign B d h with
         | .ok x => DR.ok x | .error .NoNonce => DR.fuel | .error e => DR.err e) :=
   Secp.Proofs.DriversSchnorr.schnorrSignRFC6979_regenerated B d h
+
+
+/-- the exported schnorr `Signature.Verify` is `schnorrVerify … == nil` -/
+theorem schnorrVerifyBool_front (B : Bytes → Bytes) (sig : Nat × Nat) (h : Bytes) (Q : Nat × Nat) :
+    Secp.Gen.Drivers.schnorrVerifyBool B sig h Q =
+      (match Secp.Gen.Drivers.schnorrVerify B sig h Q with | .ok _ => true | _ => false) :=
+  Secp.Proofs.DriversFront.schnorrVerifyBool_front B sig h Q
 
 end Secp.Props.C11
